@@ -18,7 +18,7 @@ BUDGET_S = {"quick": 60, "thorough": 1800}
 MAX_RUNS = {"quick": 4000, "thorough": 10**9}
 MIN_OPS = 1
 
-NAMES = [None, "m", "r", "T", "x_0", "SYM7", "FUN3", "QTY1", "m", "Symbol", "beta", "Abs"]
+NAMES = [None, "m", "r", "T", "x_0", "SYM7", "FUN3", "QTY1", "m", "Symbol", "beta", "Abs", "m1", "m"]  # "m1" vs the 11th "m": names made of a stem and digits
 LATEX = [None, None, "\\mu", "r_{1}"]
 SUBS = [None, "0", "max", "1"]
 DIMS = ["length", "mass", "time", "one", "velocity", "temperature"]
